@@ -36,6 +36,11 @@ func tokenClass(la, lb, oldName string) string {
 	for _, l := range []string{la, lb} {
 		if i := strings.Index(l, "<func_ref:"); i >= 0 {
 			rest := l[i+len("<func_ref:"):]
+			if j := strings.Index(rest, ":"); j >= 0 {
+				if k := strings.LastIndex(rest[:j], "."); k >= 0 {
+					rest = rest[k+1:] // drop the package path qualifier
+				}
+			}
 			if strings.HasPrefix(rest, oldName+"$") {
 				return "func_ref-closure"
 			}
@@ -47,6 +52,9 @@ func tokenClass(la, lb, oldName string) string {
 	if strings.Contains(la, "TripCount") || strings.Contains(lb, "TripCount") {
 		return "TripCount"
 	}
+	if strings.Contains(la, ", +, ") || strings.Contains(lb, ", +, ") {
+		return "SCEV-addrec" // a rendered add-recurrence differs
+	}
 	if la == "<function missing>" || strings.HasSuffix(la, "functions") {
 		return "function-set"
 	}
@@ -54,6 +62,24 @@ func tokenClass(la, lb, oldName string) string {
 		return m[1]
 	}
 	return "other"
+}
+
+var regName = regexp.MustCompile(`\bv[0-9]+\b`)
+
+// sameUpToRegisters: the two groups consist of the same multiset of IR lines once the
+// register numbers are erased.
+func sameUpToRegisters(a, b []fp.Entry) bool {
+	lines := func(es []fp.Entry) string {
+		var ls []string
+		for _, e := range es {
+			for _, l := range strings.Split(e.IR, "\n") {
+				ls = append(ls, e.Key+"|"+regName.ReplaceAllString(strings.TrimSpace(l), "v#"))
+			}
+		}
+		sort.Strings(ls)
+		return strings.Join(ls, "\n")
+	}
+	return lines(a) == lines(b)
 }
 
 func kindsOf(es []edit.Applied) []string {
@@ -186,7 +212,11 @@ func batch(res *evid.Result, bi int, root string) {
 				if !single[pkg] {
 					head = "composed"
 				}
-				key := head + "×" + tokenClass(la, lb, fn.Name)
+				class := tokenClass(la, lb, fn.Name)
+				if class != "func_ref-closure" && class != "func_ref-self" && sameUpToRegisters(a, b) {
+					class = "register-naming-only" // same instructions, registers named in another order
+				}
+				key := head + "×" + class
 				res.Violate(key, fmt.Sprintf("%s: refactoring [%s] changed the fingerprint under the %s policy; first differing canonical-IR line of %s: %q vs %q", fn.Name, label, pol, which, la, lb),
 					map[string]any{"function": fn.Name, "policy": pol, "edits": v.Edits[gi], "P": fn.Text, "Q": v.File.Funcs[gi].Text, "batch": bi})
 				break
